@@ -2789,6 +2789,10 @@ class FnCtx:
             return self.obs
         self.obs = []
         self.checking = True
+        # callee contexts noted while the fixpoint was still moving (arguments not yet refined) are not calls this context
+        # makes in its final state: start over, with nothing cached, so that every live call notes its final context
+        self.pending = set()
+        self.memo = {}
         # evaluate every live call in the final state so that callees become live contexts
         for b in sorted(self.ft.cfg.reach):
             t = self.ft.blocks[b]["term"]
